@@ -343,7 +343,8 @@ def record_values(t: Any) -> Optional[Tuple[str, Dict[str, Term]]]:
         if f not in vals:
             if f not in defaults:
                 return None
-            vals[f] = ("const", defaults[f])
+            d = defaults[f]
+            vals[f] = ("glob", d[1]) if isinstance(d, tuple) and len(d) == 2 and d[0] == "__glob__" else ("const", d)
     return t[1][1], vals
 
 
